@@ -489,8 +489,13 @@ fn run(s: &Sess) -> Outcome {
                 break;
             }
             let tr = V::trace_snapshot();
-            if tr.iter().any(|e| e.1 == "s1.decide") {
-                std::thread::sleep(Duration::from_millis(150));
+            if let Some(d) = tr.iter().find(|e| e.1 == "s1.decide") {
+                // the decision point was reached: if it fires (the accept / abort event is queued) the loop ends as soon as
+                // it gets to that event, which a delayed heartbeat in between may postpone
+                let fires = (d.3 == 1 && s.select1) || (d.3 == 0 && s.exit0);
+                let limit = if fires { 10000 } else { 150 };
+                let t2 = Instant::now();
+                while !th.is_finished() && t2.elapsed() < Duration::from_millis(limit) { std::thread::sleep(Duration::from_millis(5)); }
                 auto = th.is_finished();
                 break;
             }
